@@ -1,4 +1,5 @@
 From TT Require Export Judge.RecvOk.
+From TT Require Import Judge.RecvProofs.  (* soundness of the comparisons used by corr_history *)
 Definition judge_c06 (steps : list hstep) (impl : list iobs) : verdict :=
   judge_of (hist_scope_b hist_init steps) (corr_history steps impl)
            (ok_c06 snap_empty steps impl && ok_abstract ah_init steps impl).
